@@ -1,4 +1,5 @@
 import CalVerif.Lemmas.XlsxA1
+import CalVerif.Props.C05
 /-! Helper lemmas for C01: the reader run on the events the encoder `renderSheet` produces. -/
 namespace XlsxCells
 open XlsxSheet
@@ -265,6 +266,38 @@ theorem getAttr_cell_r (ra : Attrs) (hra : ra = [] ∨ ∃ v, ra = [(nR, v)]) (s
   rcases hra with rfl | ⟨v, rfl⟩ <;> rcases hta with rfl | ⟨w, rfl⟩ <;> cases style <;>
     simp [getAttr, styleAttr, List.find?, nR, nS, nT]
 
+theorem cell_base_distinct (ra : Attrs) (hra : ra = [] ∨ ∃ v, ra = [(nR, v)]) (style : Option Bytes) (ta : Attrs)
+    (hta : ta = [] ∨ ∃ v, ta = [(nT, v)]) : (ra ++ styleAttr style ++ ta).Pairwise (fun p q => p.1 ≠ q.1) := by
+  rcases hra with rfl | ⟨v, rfl⟩ <;> rcases hta with rfl | ⟨w, rfl⟩ <;> cases style <;>
+    simp [styleAttr, nR, nS, nT]
+
+/-- reversing an attribute list without duplicate names changes no lookup -/
+theorem getAttr_reverse (a : Attrs) (k : Bytes) (hnd : a.Pairwise (fun p q => p.1 ≠ q.1)) :
+    getAttr a.reverse k = getAttr a k := by
+  induction a with
+  | nil => rfl
+  | cons p ps ih =>
+    obtain ⟨hp, hps⟩ := List.pairwise_cons.mp hnd
+    have ih' := ih hps
+    unfold getAttr at ih' ⊢
+    rw [List.reverse_cons, List.find?_append]
+    by_cases hk : p.1 = k
+    · have hnone : ps.reverse.find? (fun a => a.1 == k) = none := by
+        rw [List.find?_eq_none]; intro y hy
+        have := hp y (List.mem_reverse.mp hy)
+        simp only [beq_iff_eq]; intro h; exact this (hk.trans h.symm)
+      simp [hnone, hk]
+    · have : (p.1 == k) = false := by simpa using hk
+      simp only [List.find?_cons, this, List.find?_nil, Option.or_none]
+      cases hf : ps.reverse.find? (fun a => a.1 == k) with
+      | none => rw [hf] at ih'; simpa using ih'
+      | some y => rw [hf] at ih'; simpa using ih'
+
+/-- an extra attribute with another name in front changes no lookup of `k` -/
+theorem getAttr_cons_ne (a : Attrs) (k x v : Bytes) (hx : x ≠ k) : getAttr ((x, v) :: a) k = getAttr a k := by
+  have : (x == k) = false := by simpa using hx
+  simp [getAttr, List.find?, this]
+
 /-! ### decimal text through `atoi_simd::parse::<usize>` -/
 
 theorem foldl_dec (l : Bytes) (a : Nat) :
@@ -317,26 +350,39 @@ theorem atoiUsize_dec (n : Nat) (h : n < 10 ^ 19) : atoiUsize (dec n) = some n :
   simp only [this]
   rw [if_pos (by omega)]
 
-theorem parseError_literal (k : Nat) (hk : k < 7) : parseError (errLiteral k) = some k := by
-  match k, hk with
-  | 0, _ => decide
-  | 1, _ => decide
-  | 2, _ => decide
-  | 3, _ => decide
-  | 4, _ => decide
-  | 5, _ => decide
-  | 6, _ => decide
+theorem parseError_literal (k : CellErrorType) (hk : k ≠ .gettingData) : parseError (errLiteral k) = some k := by
+  cases k <;> first | exact absurd rfl hk | decide
 
 /-! ### the children of a rendered `<c>` -/
 
+theorem pieces_cons (c : Bytes) (cs : List Bytes) : pieces (c :: cs) = [.text c, .other] ++ pieces cs := by
+  simp [pieces]
+
+/-- text arriving in pieces (text nodes separated by comments) inside `<v>` is concatenated -/
+theorem steps_pieces_v (cfg : Cfg) (pos : Nat × Nat) (attrs : Attrs) (vname : Bytes) (row col : Nat)
+    (out : List (Nat × Nat × Val)) (chunks : List Bytes) (acc : Bytes) :
+    steps cfg ⟨.inV pos attrs vname acc, row, col, out⟩ (pieces chunks) =
+      .ok ⟨.inV pos attrs vname (acc ++ chunks.flatten), row, col, out⟩ := by
+  induction chunks generalizing acc with
+  | nil => simp [pieces, steps]
+  | cons c cs ih =>
+    rw [pieces_cons]
+    have h1 : steps cfg ⟨.inV pos attrs vname acc, row, col, out⟩ [.text c, .other] =
+        .ok ⟨.inV pos attrs vname (acc ++ c), row, col, out⟩ := by simp [steps, step]
+    rw [steps_append_ok cfg _ _ _ _ h1, ih]
+    simp [List.append_assoc]
+
 theorem steps_v (cfg : Cfg) (p : Bool) (pos : Nat × Nat) (attrs : Attrs) (v0 v : Val) (row col : Nat)
-    (out : List (Nat × Nat × Val)) (t : Bytes) (h : readV cfg attrs t = .ok v) :
-    steps cfg ⟨.cell pos attrs v0, row, col, out⟩ (vEvents p t) = .ok ⟨.cell pos attrs v, row, col, out⟩ := by
+    (out : List (Nat × Nat × Val)) (chunks : List Bytes) (t : Bytes) (hfl : chunks.flatten = t)
+    (h : readV cfg attrs t = .ok v) :
+    steps cfg ⟨.cell pos attrs v0, row, col, out⟩ (vEvents p chunks) = .ok ⟨.cell pos attrs v, row, col, out⟩ := by
   unfold vEvents
-  by_cases ht : t = []
-  · subst ht
-    simp [steps, step, h]
-  · simp [steps, step, h, ht]
+  have h1 : steps cfg ⟨.cell pos attrs v0, row, col, out⟩ [.start (q p nV) []] =
+      .ok ⟨.inV pos attrs (q p nV) [], row, col, out⟩ := by simp [steps, step]
+  have h2 := steps_pieces_v cfg pos attrs (q p nV) row col out chunks []
+  have h3 : steps cfg ⟨.inV pos attrs (q p nV) ([] ++ chunks.flatten), row, col, out⟩ [.stop (q p nV)] =
+      .ok ⟨.cell pos attrs v, row, col, out⟩ := by simp [steps, step, hfl, h]
+  rw [List.append_assoc, steps_append_ok cfg _ _ _ _ h1, steps_append_ok cfg _ _ _ _ h2, h3]
 
 theorem steps_formula (cfg : Cfg) (p : Bool) (pos : Nat × Nat) (attrs : Attrs) (row col : Nat)
     (out : List (Nat × Nat × Val)) (f : Option Bytes) :
@@ -350,18 +396,35 @@ theorem steps_formula (cfg : Cfg) (p : Bool) (pos : Nat × Nat) (attrs : Attrs) 
       simp [steps, step]
     · simp [steps, step, hf]
 
-theorem steps_inline (cfg : Cfg) (p : Bool) (pos : Nat × Nat) (attrs : Attrs) (v0 : Val) (row col : Nat)
-    (out : List (Nat × Nat × Val)) (s : Bytes) :
-    steps cfg ⟨.cell pos attrs v0, row, col, out⟩
-      ([.start (q p nIs) [], .start (q p nT) []] ++ (if s = [] then [] else [.text s]) ++ [.stop (q p nT), .stop (q p nIs)])
-      = .ok ⟨.cell pos attrs (.str s), row, col, out⟩ := by
-  by_cases hs : s = []
-  · subst hs
-    simp [steps, step, strStep]
-  · simp [steps, step, strStep, hs]
+/-- text arriving in pieces inside the `<t>` of an inline string is concatenated -/
+theorem steps_pieces_t (cfg : Cfg) (pos : Nat × Nat) (attrs : Attrs) (cl tname : Bytes) (rich : Option Bytes) (phon : Bool)
+    (row col : Nat) (out : List (Nat × Nat × Val)) (chunks : List Bytes) (acc : Bytes) :
+    steps cfg ⟨.inIs pos attrs cl (.inT rich phon tname acc), row, col, out⟩ (pieces chunks) =
+      .ok ⟨.inIs pos attrs cl (.inT rich phon tname (acc ++ chunks.flatten)), row, col, out⟩ := by
+  induction chunks generalizing acc with
+  | nil => simp [pieces, steps]
+  | cons c cs ih =>
+    rw [pieces_cons]
+    have h1 : steps cfg ⟨.inIs pos attrs cl (.inT rich phon tname acc), row, col, out⟩ [.text c, .other] =
+        .ok ⟨.inIs pos attrs cl (.inT rich phon tname (acc ++ c)), row, col, out⟩ := by simp [steps, step, strStep]
+    rw [steps_append_ok cfg _ _ _ _ h1, ih]
+    simp [List.append_assoc]
 
-theorem contentEvents_attr (p : Bool) (c : Content) :
-    (contentEvents p c).1 = [] ∨ ∃ v, (contentEvents p c).1 = [(nT, v)] := by
+theorem steps_inline (cfg : Cfg) (p : Bool) (pos : Nat × Nat) (attrs : Attrs) (v0 : Val) (row col : Nat)
+    (out : List (Nat × Nat × Val)) (chunks : List Bytes) (s : Bytes) (hfl : chunks.flatten = s) :
+    steps cfg ⟨.cell pos attrs v0, row, col, out⟩
+      ([.start (q p nIs) [], .start (q p nT) []] ++ pieces chunks ++ [.stop (q p nT), .stop (q p nIs)])
+      = .ok ⟨.cell pos attrs (.str s), row, col, out⟩ := by
+  have h1 : steps cfg ⟨.cell pos attrs v0, row, col, out⟩ [.start (q p nIs) [], .start (q p nT) []] =
+      .ok ⟨.inIs pos attrs (q p nIs) (.inT none false (q p nT) []), row, col, out⟩ := by simp [steps, step, strStep]
+  have h2 := steps_pieces_t cfg pos attrs (q p nIs) (q p nT) none false row col out chunks []
+  have h3 : steps cfg ⟨.inIs pos attrs (q p nIs) (.inT none false (q p nT) ([] ++ chunks.flatten)), row, col, out⟩
+      [.stop (q p nT), .stop (q p nIs)] = .ok ⟨.cell pos attrs (.str s), row, col, out⟩ := by
+    simp [steps, step, strStep, hfl]
+  rw [List.append_assoc, steps_append_ok cfg _ _ _ _ h1, steps_append_ok cfg _ _ _ _ h2, h3]
+
+theorem contentEvents_attr (p : Bool) (sp : Bytes → List Bytes) (c : Content) :
+    (contentEvents p sp c).1 = [] ∨ ∃ v, (contentEvents p sp c).1 = [(nT, v)] := by
   cases c with
   | blank => exact Or.inl rfl
   | num t tn => cases tn <;> simp [contentEvents]
@@ -372,11 +435,11 @@ theorem contentEvents_attr (p : Bool) (c : Content) :
   | err k => exact Or.inr ⟨_, rfl⟩
   | iso s => exact Or.inr ⟨_, rfl⟩
 
-/-- the typing table on the attributes of a rendered cell: `t` absent / given, style through `styleFmt` -/
-theorem readV_cell (cfg : Cfg) (ra : Attrs) (hra : ra = [] ∨ ∃ v, ra = [(nR, v)]) (style : Option Bytes)
-    (ta : Attrs) (hta : ta = [] ∨ ∃ v, ta = [(nT, v)]) (v : Bytes) :
-    readV cfg (ra ++ styleAttr style ++ ta) v =
-      match ta.head?.map (·.2) with
+/-- the typing table, in terms of what the attribute lookups of `s` and `t` give (nothing else of the
+    attribute list matters: order, inert extra attributes) -/
+theorem readV_of_attrs (cfg : Cfg) (attrs : Attrs) (v : Bytes) :
+    readV cfg attrs v =
+      match getAttr attrs nT with
       | some t =>
         if t = nS then
           match cfg.strings[(atoiUsize v).getD 0]? with
@@ -389,63 +452,73 @@ theorem readV_cell (cfg : Cfg) (ra : Attrs) (hra : ra = [] ∨ ∃ v, ra = [(nR,
           | none => .err "CellError"
         else if t = tD then .ok (.dateIso v)
         else if t = tStr then .ok (.str v)
-        else if t = tN then (if v = [] then .ok .empty else .ok (.num v (styleFmt cfg style) true))
+        else if t = tN then (if v = [] then .ok .empty else .ok (.num v (styleFmt cfg (getAttr attrs nS)) true))
         else if t = nIs then .err "Unexpected"
         else .err "CellTAttribute"
-      | none => .ok (.num v (styleFmt cfg style) false) := by
+      | none => .ok (.num v (styleFmt cfg (getAttr attrs nS)) false) := by
   unfold readV
-  rw [getAttr_cell_s ra hra style ta hta, getAttr_cell_t ra hra style ta hta]
-  cases style <;> rfl
+  cases getAttr attrs nS <;> rfl
 
-theorem steps_content (cfg : Cfg) (p : Bool) (pos : Nat × Nat) (ra : Attrs) (hra : ra = [] ∨ ∃ v, ra = [(nR, v)])
-    (cs : CellSpec) (hok : cs.content.Ok cfg) (row col : Nat) (out : List (Nat × Nat × Val)) :
-    steps cfg ⟨.cell pos (ra ++ styleAttr cs.style ++ (contentEvents p cs.content).1) .empty, row, col, out⟩
-      (contentEvents p cs.content).2 =
-    .ok ⟨.cell pos (ra ++ styleAttr cs.style ++ (contentEvents p cs.content).1) (expect cfg cs), row, col, out⟩ := by
-  have hta := contentEvents_attr p cs.content
+theorem steps_content (cfg : Cfg) (p : Bool) (sp : Bytes → List Bytes) (hsp : ∀ t, (sp t).flatten = t)
+    (pos : Nat × Nat) (attrs : Attrs) (cs : CellSpec)
+    (hs : getAttr attrs nS = cs.style) (ht : getAttr attrs nT = (contentEvents p sp cs.content).1.head?.map (·.2))
+    (hok : cs.content.Ok cfg) (row col : Nat) (out : List (Nat × Nat × Val)) :
+    steps cfg ⟨.cell pos attrs .empty, row, col, out⟩ (contentEvents p sp cs.content).2 =
+    .ok ⟨.cell pos attrs (expect cfg cs), row, col, out⟩ := by
   obtain ⟨content, style, formula⟩ := cs
-  simp only at hok hta ⊢
+  simp only at hok hs ht ⊢
   cases content with
   | blank => simp [contentEvents, steps, expect]
   | num t tn =>
-    apply steps_v
-    rw [readV_cell cfg ra hra style _ hta]
+    apply steps_v (hfl := hsp t)
+    rw [readV_of_attrs cfg attrs, hs, ht]
     cases tn
     · simp [contentEvents, expect]
     · by_cases ht : t = [] <;> simp [contentEvents, expect, ht, tN, nS, tB, tE, tD, tStr]
   | shared idx =>
-    apply steps_v
-    rw [readV_cell cfg ra hra style _ hta]
+    apply steps_v (hfl := hsp (dec idx))
+    rw [readV_of_attrs cfg attrs, hs, ht]
     obtain ⟨h1, h2⟩ := hok
     simp only [contentEvents, List.head?_cons, Option.map_some, if_true, atoiUsize_dec idx h2, Option.getD_some, expect]
     rw [List.getElem?_eq_getElem h1]
     simp [List.getD_eq_getElem?_getD, List.getElem?_eq_getElem h1]
   | inline s =>
     simp only [contentEvents]
-    exact steps_inline cfg p pos _ .empty row col out s
+    exact steps_inline cfg p pos _ .empty row col out (sp s) s (hsp s)
   | fstr s =>
-    apply steps_v
-    rw [readV_cell cfg ra hra style _ hta]
+    apply steps_v (hfl := hsp s)
+    rw [readV_of_attrs cfg attrs, hs, ht]
     simp [contentEvents, expect, tN, nS, tB, tE, tD, tStr]
   | bool b =>
-    apply steps_v
-    rw [readV_cell cfg ra hra style _ hta]
+    apply steps_v (hfl := hsp _)
+    rw [readV_of_attrs cfg attrs, hs, ht]
     cases b <;> simp [contentEvents, expect, tN, nS, tB, tE, tD, tStr]
   | err k =>
-    apply steps_v
-    rw [readV_cell cfg ra hra style _ hta]
+    apply steps_v (hfl := hsp _)
+    rw [readV_of_attrs cfg attrs, hs, ht]
     simp [contentEvents, expect, tN, nS, tB, tE, tD, tStr, parseError_literal k hok]
   | iso s =>
-    apply steps_v
-    rw [readV_cell cfg ra hra style _ hta]
+    apply steps_v (hfl := hsp s)
+    rw [readV_of_attrs cfg attrs, hs, ht]
     simp [contentEvents, expect, tN, nS, tB, tE, tD, tStr]
 
 /-! ### cells, rows, the sheet -/
 
+/-- white space and comments between rows and cells are skipped -/
+theorem steps_inert_rows (cfg : Cfg) (l : List Ev) (h : Inert l) (row col : Nat) (out : List (Nat × Nat × Val)) :
+    steps cfg ⟨.rows, row, col, out⟩ l = .ok ⟨.rows, row, col, out⟩ := by
+  induction l with
+  | nil => rfl
+  | cons ev rest ih =>
+    have hrest : Inert rest := fun e he => h e (by simp [he])
+    rcases h ev (by simp) with rfl | ⟨s, rfl⟩
+    · simp only [steps, step]; exact ih hrest
+    · simp only [steps, step]; exact ih hrest
+
 /-- one rendered `<c>`: the reader returns the cell at its position with the expected value and moves the
     column cursor just past it -/
-theorem steps_cell (cfg : Cfg) (lay : Layout) (r c cur : Nat) (cs : CellSpec) (hr : r < 1048576) (hc : c < 16384)
-    (hok : cs.content.Ok cfg) (out : List (Nat × Nat × Val)) :
+theorem steps_cell (cfg : Cfg) (lay : Layout) (hl : lay.Legal) (r c cur : Nat) (cs : CellSpec) (hr : r < 1048576)
+    (hc : c < 16384) (hok : cs.content.Ok cfg) (out : List (Nat × Nat × Val)) :
     steps cfg ⟨.rows, r, cur, out⟩ (renderCell lay r c cur cs) =
       .ok ⟨.rows, r, c + 1, (r, c, expect cfg cs) :: out⟩ := by
   simp only [renderCell]
@@ -455,11 +528,19 @@ theorem steps_cell (cfg : Cfg) (lay : Layout) (r c cur : Nat) (cs : CellSpec) (h
     subst hra; split
     · exact Or.inr ⟨_, rfl⟩
     · exact Or.inl rfl
+  generalize hp : lay.cellPfx r c = p
+  have hta := contentEvents_attr p (lay.split r c) cs.content
+  generalize hattrs : lay.cellArrange r c (ra ++ styleAttr cs.style ++ (contentEvents p (lay.split r c) cs.content).1) = attrs
+  have hR : getAttr attrs nR = ra.head?.map (·.2) := by
+    rw [← hattrs, hl.cellAttr r c _ nR (cell_base_distinct ra hra' cs.style _ hta) (Or.inl rfl)]; exact getAttr_cell_r ra hra' cs.style _ hta
+  have hS : getAttr attrs nS = cs.style := by
+    rw [← hattrs, hl.cellAttr r c _ nS (cell_base_distinct ra hra' cs.style _ hta) (Or.inr (Or.inl rfl))]; exact getAttr_cell_s ra hra' cs.style _ hta
+  have hT : getAttr attrs nT = (contentEvents p (lay.split r c) cs.content).1.head?.map (·.2) := by
+    rw [← hattrs, hl.cellAttr r c _ nT (cell_base_distinct ra hra' cs.style _ hta) (Or.inr (Or.inr rfl))]; exact getAttr_cell_t ra hra' cs.style _ hta
+  have h0 := steps_inert_rows cfg (lay.gapCell r c) (hl.gaps.2.1 r c) r cur out
   -- <c …>
-  have h1 : steps cfg ⟨.rows, r, cur, out⟩ [.start (q lay.pfx nC) (ra ++ styleAttr cs.style ++ (contentEvents lay.pfx cs.content).1)] =
-      .ok ⟨.cell (r, c) (ra ++ styleAttr cs.style ++ (contentEvents lay.pfx cs.content).1) .empty, r, c, out⟩ := by
-    have hattr := getAttr_cell_r ra hra' cs.style _ (contentEvents_attr lay.pfx cs.content)
-    simp only [steps, step, ln_c, nC_ne_nRow, if_false, if_true, hattr]
+  have h1 : steps cfg ⟨.rows, r, cur, out⟩ [.start (q p nC) attrs] = .ok ⟨.cell (r, c) attrs .empty, r, c, out⟩ := by
+    simp only [steps, step, ln_c, nC_ne_nRow, if_false, if_true, hR]
     subst hra
     by_cases hex : (lay.cellExplicit r c || c != cur) = true
     · simp only [hex, if_true, List.head?_cons, Option.map_some]
@@ -470,22 +551,22 @@ theorem steps_cell (cfg : Cfg) (lay : Layout) (r c cur : Nat) (cs : CellSpec) (h
       subst hcur
       simp only [hex, Bool.false_eq_true, if_false, List.head?_nil, Option.map_none]
   -- <f>, value children, </c>
-  have h2 := steps_formula cfg lay.pfx (r, c) (ra ++ styleAttr cs.style ++ (contentEvents lay.pfx cs.content).1) r c out cs.formula
-  have h3 := steps_content cfg lay.pfx (r, c) ra hra' cs hok r c out
-  have h4 : steps cfg ⟨.cell (r, c) (ra ++ styleAttr cs.style ++ (contentEvents lay.pfx cs.content).1) (expect cfg cs), r, c, out⟩
-      [.stop (q lay.pfx nC)] = .ok ⟨.rows, r, c + 1, (r, c, expect cfg cs) :: out⟩ := by
+  have h2 := steps_formula cfg p (r, c) attrs r c out cs.formula
+  have h3 := steps_content cfg p (lay.split r c) (hl.split r c) (r, c) attrs cs hS hT hok r c out
+  have h4 : steps cfg ⟨.cell (r, c) attrs (expect cfg cs), r, c, out⟩
+      [.stop (q p nC)] = .ok ⟨.rows, r, c + 1, (r, c, expect cfg cs) :: out⟩ := by
     have : satAdd c 1 = c + 1 := satAdd_eq (by simp only [U32]; omega)
     simp [steps, step, this]
-  rw [List.append_assoc, List.append_assoc, steps_append_ok cfg _ _ _ _ h1, steps_append_ok cfg _ _ _ _ h2,
-    steps_append_ok cfg _ _ _ _ h3, h4]
+  rw [List.append_assoc, List.append_assoc, List.append_assoc, steps_append_ok cfg _ _ _ _ h0,
+    steps_append_ok cfg _ _ _ _ h1, steps_append_ok cfg _ _ _ _ h2, steps_append_ok cfg _ _ _ _ h3, h4]
 
 /-- the expected cells of one row -/
 def rowCells (cfg : Cfg) (r : Nat) (cells : List (Nat × CellSpec)) : List (Nat × Nat × Val) :=
   cells.map fun cell => (r, cell.1, expect cfg cell.2)
 
-theorem steps_cells (cfg : Cfg) (lay : Layout) (r : Nat) (hr : r < 1048576) (cells : List (Nat × CellSpec))
-    (cur : Nat) (hinc : Increasing 16384 cur cells) (hok : ∀ cell ∈ cells, cell.2.content.Ok cfg)
-    (out : List (Nat × Nat × Val)) :
+theorem steps_cells (cfg : Cfg) (lay : Layout) (hl : lay.Legal) (r : Nat) (hr : r < 1048576)
+    (cells : List (Nat × CellSpec)) (cur : Nat) (hinc : Increasing 16384 cur cells)
+    (hok : ∀ cell ∈ cells, cell.2.content.Ok cfg) (out : List (Nat × Nat × Val)) :
     ∃ col, steps cfg ⟨.rows, r, cur, out⟩ (renderCells lay r cur cells) =
       .ok ⟨.rows, r, col, (rowCells cfg r cells).reverse ++ out⟩ := by
   induction cells generalizing cur out with
@@ -493,15 +574,16 @@ theorem steps_cells (cfg : Cfg) (lay : Layout) (r : Nat) (hr : r < 1048576) (cel
   | cons cell rest ih =>
     obtain ⟨c, cs⟩ := cell
     obtain ⟨_, hc, hrest⟩ := hinc
-    have h1 := steps_cell cfg lay r c cur cs hr hc (hok (c, cs) (by simp)) out
+    have h1 := steps_cell cfg lay hl r c cur cs hr hc (hok (c, cs) (by simp)) out
     obtain ⟨col, h2⟩ := ih (c + 1) hrest (fun x hx => hok x (by simp [hx])) ((r, c, expect cfg cs) :: out)
     refine ⟨col, ?_⟩
     simp only [renderCells]
     rw [steps_append_ok cfg _ _ _ _ h1, h2]
     simp [rowCells]
 
-theorem steps_rows (cfg : Cfg) (lay : Layout) (s : Sheet) (cur : Nat) (hinc : Increasing 1048576 cur s)
-    (hcols : ∀ row ∈ s, Increasing 16384 0 row.2) (hok : Sheet.ContentOk cfg s) (out : List (Nat × Nat × Val)) :
+theorem steps_rows (cfg : Cfg) (lay : Layout) (hl : lay.Legal) (s : Sheet) (cur : Nat)
+    (hinc : Increasing 1048576 cur s) (hcols : ∀ row ∈ s, Increasing 16384 0 row.2) (hok : Sheet.ContentOk cfg s)
+    (out : List (Nat × Nat × Val)) :
     ∃ row, steps cfg ⟨.rows, cur, 0, out⟩ (renderRows lay cur s) =
       .ok ⟨.rows, row, 0, (cellsOf cfg s).reverse ++ out⟩ := by
   induction s generalizing cur out with
@@ -509,22 +591,28 @@ theorem steps_rows (cfg : Cfg) (lay : Layout) (s : Sheet) (cur : Nat) (hinc : In
   | cons rowspec rest ih =>
     obtain ⟨r, cells⟩ := rowspec
     obtain ⟨_, hr, hrest⟩ := hinc
+    have h0 := steps_inert_rows cfg (lay.gapRow r) (hl.gaps.1 r) cur 0 out
     -- <row …>
     have h1 : steps cfg ⟨.rows, cur, 0, out⟩
-        [.start (q lay.pfx nRow) (if (lay.rowExplicit r || r != cur) = true then [(nR, dec (r + 1))] else [])] =
+        [.start (q (lay.rowPfx r) nRow) (lay.rowArrange r (if (lay.rowExplicit r || r != cur) = true then [(nR, dec (r + 1))] else []))] =
         .ok ⟨.rows, r, 0, out⟩ := by
+      have hrow : getAttr (lay.rowArrange r (if (lay.rowExplicit r || r != cur) = true then [(nR, dec (r + 1))] else [])) nR =
+          getAttr (if (lay.rowExplicit r || r != cur) = true then [(nR, dec (r + 1))] else []) nR :=
+        hl.rowAttr r _ (by split <;> simp)
+      simp only [steps, step, ln_row, if_true, hrow]
       by_cases hex : (lay.rowExplicit r || r != cur) = true
-      · simp only [hex, if_true, steps, step, ln_row, getAttr, List.find?, beq_self_eq_true, Option.map_some]
+      · simp only [hex, if_true, getAttr, List.find?, beq_self_eq_true, Option.map_some]
         rw [getRow_dec r (by simp only [U32]; omega)]
       · have hcur : r = cur := by
           simp only [Bool.or_eq_true, bne_iff_ne, ne_eq, not_or, Bool.not_eq_true, Classical.not_not] at hex
           exact hex.2
         subst hcur
         have hre : lay.rowExplicit r = false := by simpa using hex
-        simp [hre, steps, step, getAttr]
-    obtain ⟨col, h2⟩ := steps_cells cfg lay r hr cells 0 (hcols (r, cells) (by simp))
+        simp [hre, getAttr]
+    obtain ⟨col, h2⟩ := steps_cells cfg lay hl r hr cells 0 (hcols (r, cells) (by simp))
       (fun cell hcell => hok (r, cells) (by simp) cell hcell) out
-    have h3 : steps cfg ⟨.rows, r, col, (rowCells cfg r cells).reverse ++ out⟩ [.stop (q lay.pfx nRow)] =
+    have h2' := steps_inert_rows cfg (lay.gapRowEnd r) (hl.gaps.2.2.1 r) r col ((rowCells cfg r cells).reverse ++ out)
+    have h3 : steps cfg ⟨.rows, r, col, (rowCells cfg r cells).reverse ++ out⟩ [.stop (q (lay.rowPfx r) nRow)] =
         .ok ⟨.rows, r + 1, 0, (rowCells cfg r cells).reverse ++ out⟩ := by
       have : satAdd r 1 = r + 1 := satAdd_eq (by simp only [U32]; omega)
       simp [steps, step, this]
@@ -532,61 +620,92 @@ theorem steps_rows (cfg : Cfg) (lay : Layout) (s : Sheet) (cur : Nat) (hinc : In
       (fun x hx => hok x (by simp [hx])) ((rowCells cfg r cells).reverse ++ out)
     refine ⟨row, ?_⟩
     simp only [renderRows]
-    rw [List.append_assoc, List.append_assoc, steps_append_ok cfg _ _ _ _ h1, steps_append_ok cfg _ _ _ _ h2,
+    rw [List.append_assoc, List.append_assoc, List.append_assoc, List.append_assoc, steps_append_ok cfg _ _ _ _ h0,
+      steps_append_ok cfg _ _ _ _ h1, steps_append_ok cfg _ _ _ _ h2, steps_append_ok cfg _ _ _ _ h2',
       steps_append_ok cfg _ _ _ _ h3, h4]
     simp [cellsOf, rowCells]
 
-theorem readerNew_render (s : Sheet) (lay : Layout) (hdim : lay.DimOk) :
-    readerNew (renderSheet s lay) default false =
-      .ok (lay.dim.getD default, renderRows lay 0 s ++ [.stop (q lay.pfx nSheetData), .stop (q lay.pfx nWorksheet)]) := by
-  unfold renderSheet dimEvents
+/-- sibling elements before `<sheetData>` that are not themselves a `dimension`/`sheetData` start are skipped -/
+theorem readerNew_skip (l rest : List Ev) (d : Dims) (b : Bool) (h : NoHead l) :
+    ∃ b', readerNew (l ++ rest) d b = readerNew rest d b' := by
+  induction l generalizing b with
+  | nil => exact ⟨b, rfl⟩
+  | cons ev l ih =>
+    have hl : NoHead l := fun e he => h e (by simp [he])
+    cases ev with
+    | start n a =>
+      obtain ⟨h1, h2⟩ := h (.start n a) (by simp) n a rfl
+      obtain ⟨b', hb⟩ := ih true hl
+      exact ⟨b', by simp only [List.cons_append, readerNew, h1, h2, if_false]; exact hb⟩
+    | text s =>
+      obtain ⟨b', hb⟩ := ih b hl
+      exact ⟨b', by simp only [List.cons_append, readerNew]; exact hb⟩
+    | stop n =>
+      obtain ⟨b', hb⟩ := ih b hl
+      exact ⟨b', by simp only [List.cons_append, readerNew]; exact hb⟩
+    | other =>
+      obtain ⟨b', hb⟩ := ih b hl
+      exact ⟨b', by simp only [List.cons_append, readerNew]; exact hb⟩
+
+theorem readerNew_render (s : Sheet) (lay : Layout) (hl : lay.Legal) :
+    readerNew (renderSheet s lay) default false = .ok (lay.dim.getD default, renderBody s lay) := by
+  unfold renderSheet
+  simp only [List.append_assoc, List.cons_append, List.nil_append]
+  rw [readerNew]
+  simp only [ln_ws, nWorksheet_ne_nDimension, nWorksheet_ne_nSheetData, if_false]
+  obtain ⟨b1, h1⟩ := readerNew_skip lay.beforeDim
+    (dimEvents lay ++ (lay.afterDim ++ Ev.start (q lay.pfx nSheetData) [] :: renderBody s lay)) default true hl.head.1
+  rw [h1]
+  unfold dimEvents
   cases hd : lay.dim with
-  | none => simp [readerNew]
+  | none =>
+    simp only [List.nil_append, Option.getD_none]
+    obtain ⟨b2, h2⟩ := readerNew_skip lay.afterDim (Ev.start (q lay.pfx nSheetData) [] :: renderBody s lay) default b1 hl.head.2
+    rw [h2]
+    simp [readerNew]
   | some d =>
-    obtain ⟨h1, h2, h3, h4⟩ := hdim d hd
+    obtain ⟨h1, h2, h3, h4⟩ := hl.dim d hd
     have := getDimension_dimRef d (by simp only [U32]; omega) (by simp only [U32]; omega)
       (by simp only [U32]; omega) (by simp only [U32]; omega)
-    simp [readerNew, getAttr, this]
-
-/-- the reader on a rendered sheet: exactly the cells of the sheet, row-major, each with its expected value -/
-theorem readCells_render (cfg : Cfg) (s : Sheet) (lay : Layout) (hwf : s.WF) (hok : s.ContentOk cfg)
-    (hdim : lay.DimOk) : readCells cfg (renderSheet s lay) = .ok (lay.dim.getD default, cellsOf cfg s) := by
-  unfold readCells
-  rw [readerNew_render s lay hdim]
-  obtain ⟨row, h1⟩ := steps_rows cfg lay s 0 hwf.1 hwf.2 hok []
-  have h2 : steps cfg ⟨.rows, row, 0, (cellsOf cfg s).reverse ++ []⟩
-      [.stop (q lay.pfx nSheetData), .stop (q lay.pfx nWorksheet)] =
-      .ok ⟨.done, row, 0, (cellsOf cfg s).reverse ++ []⟩ := by
-    simp [steps, step]
-  have h3 := steps_append_ok cfg _ _ _ [Ev.stop (q lay.pfx nSheetData), .stop (q lay.pfx nWorksheet)] h1
-  rw [h2] at h3
-  have := run_of_steps cfg _ initSt _ h3 rfl
-  simp only [initSt] at this ⊢
-  rw [this]
-  simp
+    simp only [List.cons_append, List.nil_append, Option.getD_some]
+    rw [readerNew]
+    simp only [ln_dim, if_true, getAttr, List.find?, beq_self_eq_true, Option.map_some, this]
+    have hstop : ∀ (rest : List Ev) (b : Bool), readerNew (Ev.stop (q lay.pfx nDimension) :: rest) d b = readerNew rest d b := by
+      intro rest b; simp [readerNew]
+    rw [hstop]
+    obtain ⟨b2, h2⟩ := readerNew_skip lay.afterDim (Ev.start (q lay.pfx nSheetData) [] :: renderBody s lay) d b1 hl.head.2
+    rw [h2]
+    simp [readerNew]
 
 /-- `run` on the part after `<sheetData>` of a rendered sheet -/
-theorem run_render (cfg : Cfg) (s : Sheet) (lay : Layout) (hwf : s.WF) (hok : s.ContentOk cfg) :
-    run cfg (renderRows lay 0 s ++ [.stop (q lay.pfx nSheetData), .stop (q lay.pfx nWorksheet)]) initSt =
-      (cellsOf cfg s, .ok ()) := by
-  obtain ⟨row, h1⟩ := steps_rows cfg lay s 0 hwf.1 hwf.2 hok []
-  have h2 : steps cfg ⟨.rows, row, 0, (cellsOf cfg s).reverse ++ []⟩
-      [.stop (q lay.pfx nSheetData), .stop (q lay.pfx nWorksheet)] =
+theorem run_render (cfg : Cfg) (s : Sheet) (lay : Layout) (hl : lay.Legal) (hwf : s.WF) (hok : s.ContentOk cfg) :
+    run cfg (renderBody s lay) initSt = (cellsOf cfg s, .ok ()) := by
+  obtain ⟨row, h1⟩ := steps_rows cfg lay hl s 0 hwf.1 hwf.2 hok []
+  have h2 := steps_inert_rows cfg lay.gapEnd hl.gaps.2.2.2 row 0 ((cellsOf cfg s).reverse ++ [])
+  have h3 : steps cfg ⟨.rows, row, 0, (cellsOf cfg s).reverse ++ []⟩ [.stop (q lay.pfx nSheetData)] =
       .ok ⟨.done, row, 0, (cellsOf cfg s).reverse ++ []⟩ := by
     simp [steps, step]
-  have h3 := steps_append_ok cfg _ _ _ [Ev.stop (q lay.pfx nSheetData), .stop (q lay.pfx nWorksheet)] h1
-  rw [h2] at h3
-  have := run_of_steps cfg _ initSt _ h3 rfl
-  simp only [initSt] at this ⊢
+  have h4 := steps_done cfg ⟨.done, row, 0, (cellsOf cfg s).reverse ++ []⟩ (lay.after ++ [.stop (q lay.pfx nWorksheet)]) rfl
+  have hall : steps cfg initSt (renderBody s lay) = .ok ⟨.done, row, 0, (cellsOf cfg s).reverse ++ []⟩ := by
+    unfold renderBody
+    simp only [initSt, List.append_assoc]
+    rw [steps_append_ok cfg _ _ _ _ h1, steps_append_ok cfg _ _ _ _ h2, steps_append_ok cfg _ _ _ _ h3, h4]
+  have := run_of_steps cfg _ initSt _ hall rfl
   rw [this]
   simp
 
-theorem worksheetRange_render (cfg : Cfg) (s : Sheet) (lay : Layout) (hwf : s.WF) (hok : s.ContentOk cfg)
-    (hdim : lay.DimOk) :
+/-- the reader on a rendered sheet: exactly the cells of the sheet, row-major, each with its expected value -/
+theorem readCells_render (cfg : Cfg) (s : Sheet) (lay : Layout) (hl : lay.Legal) (hwf : s.WF) (hok : s.ContentOk cfg) :
+    readCells cfg (renderSheet s lay) = .ok (lay.dim.getD default, cellsOf cfg s) := by
+  unfold readCells
+  rw [readerNew_render s lay hl]
+  simp only [run_render cfg s lay hl hwf hok]
+
+theorem worksheetRange_render (cfg : Cfg) (s : Sheet) (lay : Layout) (hl : lay.Legal) (hwf : s.WF) (hok : s.ContentOk cfg) :
     worksheetRange cfg (renderSheet s lay) = Range.fromSparse ((cellsOf cfg s).filter (fun c => c.2.2 ≠ .empty)) := by
   unfold worksheetRange
-  rw [readerNew_render s lay hdim]
-  simp only [run_render cfg s lay hwf hok]
+  rw [readerNew_render s lay hl]
+  simp only [run_render cfg s lay hl hwf hok]
 
 /-! ### order and bounds of the expected cells -/
 
@@ -691,6 +810,161 @@ theorem lex_unique {l : List (Nat × Nat × Val)} (hp : l.Pairwise Lex) (l1 l2 :
   · intro x hx hcontra
     have := hp.2.1.1 x hx
     rcases this with h | h <;> omega
+
+/-! ### remarks that hold by definition (kept out of `Props/`) -/
+
+/-- the positions of `cellsOf` are the positions of the sheet, row-major -/
+theorem cellsOf_positions (cfg : Cfg) (s : Sheet) :
+    (cellsOf cfg s).map (fun c => (c.1, c.2.1)) = s.flatMap (fun row => row.2.map fun cell => (row.1, cell.1)) := by
+  simp only [cellsOf, List.map_flatMap, List.map_map]
+  rfl
+
+/-- `expect`, spelled out -/
+theorem expect_table (cfg : Cfg) (cs : CellSpec) :
+    expect cfg cs = (match cs.content with
+      | .blank => .empty
+      | .num t tn => if tn ∧ t = [] then .empty else .num t (styleFmt cfg cs.style) tn
+      | .shared idx => .shared (cfg.strings.getD idx [])
+      | .inline s => .str s
+      | .fstr s => .str s
+      | .bool b => .bool b
+      | .err k => .error k
+      | .iso s => .dateIso s) := rfl
+
+theorem mem_cellsOf (cfg : Cfg) (s : Sheet) (x : Nat × Nat × Val) :
+    x ∈ cellsOf cfg s ↔ ∃ row ∈ s, ∃ cell ∈ row.2, x = (row.1, cell.1, expect cfg cell.2) := by
+  simp only [cellsOf, List.mem_flatMap, List.mem_map]
+  constructor
+  · rintro ⟨row, hrow, cell, hcell, rfl⟩; exact ⟨row, hrow, cell, hcell, rfl⟩
+  · rintro ⟨row, hrow, cell, hcell, rfl⟩; exact ⟨row, hrow, cell, hcell, rfl⟩
+
+theorem mem_dataOf (env : NumEnv) (cfg : Cfg) (s : Sheet) (x : Nat × Nat × Data) :
+    x ∈ dataOf env cfg s ↔ ∃ row ∈ s, ∃ cell ∈ row.2, x = (row.1, cell.1, expectData env cfg cell.2) := by
+  simp only [dataOf, List.mem_flatMap, List.mem_map]
+  constructor
+  · rintro ⟨row, hrow, cell, hcell, rfl⟩; exact ⟨row, hrow, cell, hcell, rfl⟩
+  · rintro ⟨row, hrow, cell, hcell, rfl⟩; exact ⟨row, hrow, cell, hcell, rfl⟩
+
+/-! ### from `DataRef` tokens to `Data` -/
+
+/-- the reader's value of a cell, pushed through `toData`, is the documented value of the cell -/
+theorem toData_expect (env : NumEnv) (cfg : Cfg) (cs : CellSpec)
+    (hnum : ∀ t, cs.content = .num t true → t ≠ [] → env.parse t ≠ none) :
+    toData env (expect cfg cs) = .ok (expectData env cfg cs) := by
+  obtain ⟨content, style, formula⟩ := cs
+  cases content with
+  | num t tn =>
+    simp only [expect, expectData]
+    by_cases h : tn = true ∧ t = []
+    · simp [h, toData]
+    · simp only [h, if_false, toData]
+      cases hp : env.parse t with
+      | some bits => cases hf : styleFmt cfg style <;> simp [Formats.formatF64]
+      | none =>
+        cases tn with
+        | false => simp
+        | true =>
+          have ht : t ≠ [] := fun h0 => h ⟨rfl, h0⟩
+          exact absurd hp (hnum t rfl ht)
+  | _ => simp [expect, expectData, toData]
+
+theorem toData_empty_iff (env : NumEnv) (v : Val) (d : Data) (h : toData env v = .ok d) : d = .empty ↔ v = .empty := by
+  cases v with
+  | num t f st =>
+    simp only [toData] at h
+    cases hp : env.parse t with
+    | some bits => rw [hp] at h; simp only at h; injection h with h; subst h; simp
+    | none =>
+      rw [hp] at h; simp only at h
+      cases st with
+      | true => simp at h
+      | false => simp at h; subst h; simp
+  | _ => simp only [toData] at h; injection h with h; subst h; simp
+
+/-- every documented data cell is the `toData` image of the reader cell at the same position, and conversely -/
+theorem data_val_link (env : NumEnv) (cfg : Cfg) (s : Sheet) (hnum : s.NumOk env) (x : Nat × Nat × Data) :
+    x ∈ dataOf env cfg s ↔ ∃ c ∈ cellsOf cfg s, c.1 = x.1 ∧ c.2.1 = x.2.1 ∧ toData env c.2.2 = .ok x.2.2 := by
+  rw [mem_dataOf]
+  constructor
+  · rintro ⟨row, hrow, cell, hcell, rfl⟩
+    refine ⟨(row.1, cell.1, expect cfg cell.2), (mem_cellsOf cfg s _).mpr ⟨row, hrow, cell, hcell, rfl⟩, rfl, rfl, ?_⟩
+    exact toData_expect env cfg cell.2 (fun t ht hne => hnum row hrow cell hcell t ht hne)
+  · rintro ⟨c, hc, h1, h2, h3⟩
+    obtain ⟨row, hrow, cell, hcell, rfl⟩ := (mem_cellsOf cfg s c).mp hc
+    refine ⟨row, hrow, cell, hcell, ?_⟩
+    have := toData_expect env cfg cell.2 (fun t ht hne => hnum row hrow cell hcell t ht hne)
+    simp only at h1 h2 h3
+    rw [this] at h3
+    injection h3 with h3
+    obtain ⟨a, b, d⟩ := x
+    simp only at h1 h2 h3
+    subst h1 h2 h3
+    rfl
+
+/-! ### the range, at the level of the reader's values -/
+
+/-- `worksheet_range_ref` of an encoded sheet: the tight bounding rectangle of the non-`Empty` cells (the empty
+    range when there is none), the expected value at every stored position, `Empty` everywhere else -/
+theorem range_val_spec (cfg : Cfg) (s : Sheet) (lay : Layout) (hl : lay.Legal) (hwf : s.WF) (hok : s.ContentOk cfg) :
+    let all := cellsOf cfg s
+    ((∀ c ∈ all, c.2.2 = .empty) → worksheetRange cfg (renderSheet s lay) = .ok Range.empty) ∧
+    ((∃ c ∈ all, c.2.2 ≠ .empty) → ∃ rg, worksheetRange cfg (renderSheet s lay) = .ok rg ∧ rg.inner.length ≠ 0 ∧
+      (∀ c ∈ all, c.2.2 ≠ .empty → rg.sr ≤ c.1 ∧ c.1 ≤ rg.er ∧ rg.sc ≤ c.2.1 ∧ c.2.1 ≤ rg.ec) ∧
+      (∃ c ∈ all, c.2.2 ≠ .empty ∧ c.1 = rg.sr) ∧ (∃ c ∈ all, c.2.2 ≠ .empty ∧ c.1 = rg.er) ∧
+      (∃ c ∈ all, c.2.2 ≠ .empty ∧ c.2.1 = rg.sc) ∧ (∃ c ∈ all, c.2.2 ≠ .empty ∧ c.2.1 = rg.ec) ∧
+      (∀ c ∈ all, rg.valAt c.1 c.2.1 = c.2.2) ∧
+      (∀ p q, (∀ c ∈ all, ¬ (c.1 = p ∧ c.2.1 = q)) → rg.valAt p q = .empty)) := by
+  intro all
+  rw [worksheetRange_render cfg s lay hl hwf hok]
+  have hall_p : all.Pairwise Lex := cellsOf_pairwise cfg s 0 hwf.1 hwf.2
+  have hall_b := cellsOf_mem cfg s 0 hwf.1 hwf.2
+  have hmem : ∀ c, c ∈ all.filter (fun c => c.2.2 ≠ .empty) ↔ c ∈ all ∧ c.2.2 ≠ .empty := by
+    intro c; rw [List.mem_filter]; simp
+  have hne_p : (all.filter (fun c => c.2.2 ≠ .empty)).Pairwise Lex := hall_p.filter _
+  constructor
+  · intro h
+    have : all.filter (fun c => c.2.2 ≠ .empty) = [] := by
+      rw [List.filter_eq_nil_iff]; intro c hc; simp [h c hc]
+    show Range.fromSparse (all.filter _) = _
+    rw [this]; rfl
+  · rintro ⟨c0, hc0, hc0ne⟩
+    show ∃ rg, Range.fromSparse (all.filter _) = .ok rg ∧ _
+    generalize hne_def : all.filter (fun c => c.2.2 ≠ .empty) = ne at *
+    have hne : ne ≠ [] := List.ne_nil_of_mem ((hmem c0).mpr ⟨hc0, hc0ne⟩)
+    have hb : ∀ c ∈ ne, c.1 < 1048576 ∧ c.2.1 < 16384 := by
+      intro c hc; have := hall_b c ((hmem c).mp hc).1; exact ⟨this.2.1, this.2.2⟩
+    obtain ⟨rg, hrg⟩ := Range.fromSparse_no_panic ne (fun c hc => by have := hb c hc; omega)
+      (fun c hc c' hc' => by have := hb c hc; have := hb c' hc'; omega)
+    obtain ⟨hlen, hbox, h1, h2, h3, h4, _⟩ := Range.fromSparse_spec_any ne hne rg hrg
+    refine ⟨rg, hrg, hlen, fun c hc hcne => hbox c ((hmem c).mpr ⟨hc, hcne⟩), ?_, ?_, ?_, ?_, ?_, ?_⟩
+    · obtain ⟨c, hc, e⟩ := h1; exact ⟨c, ((hmem c).mp hc).1, ((hmem c).mp hc).2, e⟩
+    · obtain ⟨c, hc, e⟩ := h2; exact ⟨c, ((hmem c).mp hc).1, ((hmem c).mp hc).2, e⟩
+    · obtain ⟨c, hc, e⟩ := h3; exact ⟨c, ((hmem c).mp hc).1, ((hmem c).mp hc).2, e⟩
+    · obtain ⟨c, hc, e⟩ := h4; exact ⟨c, ((hmem c).mp hc).1, ((hmem c).mp hc).2, e⟩
+    · intro c hc
+      by_cases hv : c.2.2 = .empty
+      · -- a blank cell: no non-empty cell shares its position
+        rw [hv]
+        apply Range.fromSparse_untouched ne rg hrg
+        intro x hx hpos
+        obtain ⟨hxall, hxne⟩ := (hmem x).mp hx
+        obtain ⟨l1, l2, hsplit⟩ := List.append_of_mem hc
+        obtain ⟨hu1, hu2⟩ := lex_unique hall_p l1 l2 c hsplit
+        have hxm : x ∈ l1 ++ c :: l2 := by rw [← hsplit]; exact hxall
+        simp only [List.mem_append, List.mem_cons] at hxm
+        rcases hxm with hxm | rfl | hxm
+        · exact hu1 x hxm hpos
+        · exact hxne hv
+        · exact hu2 x hxm hpos
+      · have hcne : c ∈ ne := (hmem c).mpr ⟨hc, hv⟩
+        obtain ⟨l1, l2, hsplit⟩ := List.append_of_mem hcne
+        obtain ⟨_, hu2⟩ := lex_unique hne_p l1 l2 c hsplit
+        rw [hsplit] at hrg
+        exact Range.fromSparse_last_wins l1 l2 c rg hrg (fun x hx => hu2 x hx)
+    · intro p q hfree
+      apply Range.fromSparse_untouched ne rg hrg
+      intro x hx
+      exact hfree x ((hmem x).mp hx).1
 
 /-! ### shared strings -/
 
